@@ -8,42 +8,81 @@ From SC Require Import Base.Num C09.Model C09.ProofsSearch C09.ProofsGrad C09.Pr
 Import ListNotations.
 Local Open Scope R_scope.
 
-(* Backtracking::search, over ANY scalar arithmetic (binary64 included), every objective, every parameter
-   setting and both interpolation orders: a normal return hands back a step at which the loop's own test
-   `f(a) > f0 + c1*a*df0` is false, together with the objective value at exactly that step. *)
+(* Backtracking::search (after repair 78b374f it never panics), over ANY scalar arithmetic (binary64 included),
+   every objective, every parameter setting and both interpolation orders: it returns, and what it returns is
+   either a step at which the loop's own test `f(a) > f0 + c1*a*df0` is false together with the objective value
+   at exactly that step, or -- iteration budget exhausted -- the zero step together with the value f0. *)
+Theorem C09_backtracking_always_returns :
+  forall (T : Type) (O : Ops T) (P : bt_params) (phi : T -> T) (alpha f0 df0 : T),
+  exists a fx, bt_search O P phi alpha f0 df0 = Some (a, fx).
+Proof. exact @bt_search_total. Qed.
+
 Theorem C09_backtracking_exit_test_any_arithmetic :
   forall (T : Type) (O : Ops T) (P : bt_params) (phi : T -> T) (alpha f0 df0 a fx : T),
   bt_search O P phi alpha f0 df0 = Some (a, fx) ->
-  oltb O (oadd O f0 (omul O (omul O (bt_c1 P) a) df0)) fx = false /\ fx = phi a.
+  (oltb O (oadd O f0 (omul O (omul O (bt_c1 P) a) df0)) fx = false /\ fx = phi a) \/
+  (a = o0 O /\ fx = f0).
 Proof. exact @bt_search_exit. Qed.
 
-(* Over the reals: the returned step is positive, satisfies the sufficient-decrease (Armijo) inequality,
-   and therefore never increases the objective along a non-ascent direction. *)
+(* Over the reals, both exits: a positive step that satisfies the sufficient-decrease (Armijo) inequality, or the
+   zero step with the value f0; either way the returned value never exceeds f0 along a non-ascent direction. *)
 Theorem C09_backtracking_armijo :
   forall (P : bt_params) (phi : R -> R) (alpha f0 df0 a fx : R),
   0 < alpha -> 0 < bt_plo P ->
   bt_search ROps P phi alpha f0 df0 = Some (a, fx) ->
-  fx = phi a /\ 0 < a /\ fx <= f0 + bt_c1 P * a * df0 /\ (0 <= bt_c1 P -> df0 <= 0 -> fx <= f0).
+  ((0 < a /\ fx = phi a /\ fx <= f0 + bt_c1 P * a * df0) \/ (a = 0 /\ fx = f0)) /\
+  (0 <= bt_c1 P -> df0 <= 0 -> fx <= f0).
 Proof. exact backtracking_armijo. Qed.
 
-(* satisfiable: a line search that needs one interpolation *)
+(* satisfiable, both exits: a line search that needs one interpolation, and one that has to give up *)
 Example C09_backtracking_armijo_sat :
   bt_search ROps ex_bt (fun a => (a - 1/4) * (a - 1/4)) 1 (1/16) (-1/2) = Some (1/4, 0)
+  /\ bt_search ROps ex_bt (fun _ => 1) 1 0 (-1) = Some (0, 0)
   /\ 0 < 1 /\ 0 < bt_plo ex_bt.
-Proof. split; [exact ex_line_search|]. cbn. lra. Qed.
+Proof. split; [exact ex_line_search|]. split; [exact ex_line_search_gives_up|]. cbn. lra. Qed.
 
-(* LBFGS::optimize for EVERY objective f and "gradient" df (no smoothness, no convexity assumed), every
-   parameter setting, every start: if it returns, the recorded trace (f before, df0, alpha, f after) is a
-   chain from f(x0) to f(returned x) whose links satisfy the Armijo inequality at a positive step; hence
-   along any run in which every direction was a descent direction the objective never increases and the
-   returned point is no worse than the start. *)
+(* the zero-step exit is taken exactly when it has to be: if no positive step passes the test, the search
+   (whatever its budget) answers (0, f0) *)
+Theorem C09_backtracking_gives_up_when_no_step_qualifies :
+  forall (P : bt_params) (phi : R -> R) (alpha f0 df0 : R),
+  0 < alpha -> 0 < bt_plo P -> (forall a, 0 < a -> f0 + bt_c1 P * a * df0 < phi a) ->
+  bt_search ROps P phi alpha f0 df0 = Some (0, f0).
+Proof. exact bt_search_gives_up. Qed.
+
+(* LBFGS::optimize for EVERY objective f and "gradient" df (no smoothness, no convexity assumed; df only has to
+   return vectors of the dimension of its argument), every parameter setting with m > 0, every start: if it
+   returns, the recorded trace (f before, df0, alpha, f after) is a chain from f(x0) to f(returned x) whose
+   links (see `link`) start at some x, go along some s with df0 = <df x, s>, and either satisfy the Armijo
+   inequality at a positive step or stay at x (the line search gave up); hence along any run in which every
+   step that moved went along a non-ascent direction the objective never increases and the returned point is
+   no worse than the start. *)
 Theorem C09_lbfgs_monotone :
   forall (f : list R -> R) (df : list R -> list R) (L : lb_params) (B : bt_params),
-  0 <= bt_c1 B -> 0 < bt_plo B ->
+  0 <= bt_c1 B -> 0 < bt_plo B -> (0 < lb_m L)%nat -> (forall x, length (df x) = length x) ->
   forall x0 st tr conv,
   optimize ROps f df L B x0 = Some (st, tr, conv) ->
-  trace_mono B (f x0) tr (f (st_x st)) /\ (descent_trace tr -> f (st_x st) <= f x0).
+  trace_mono f df B (f x0) tr (f (st_x st)) /\ (descent_trace tr -> f (st_x st) <= f x0).
 Proof. exact lbfgs_monotone. Qed.
+
+(* The convex route: if f lies above its tangents with slope df (a convex function and its gradient) and
+   c1 < 1, the descent hypothesis is not needed -- an Armijo-accepted positive step can only have been taken
+   along a non-ascent direction, whatever the two-loop recursion produced from its (possibly indefinite)
+   curvature pairs -- so EVERY returned run is monotone and ends no higher than it started. *)
+Theorem C09_lbfgs_monotone_convex :
+  forall (f : list R -> R) (df : list R -> list R) (L : lb_params) (B : bt_params),
+  0 <= bt_c1 B -> 0 < bt_plo B -> (0 < lb_m L)%nat -> (forall x, length (df x) = length x) ->
+  bt_c1 B < 1 ->
+  (forall x s a, length s = length x -> f x + a * vdot ROps (df x) s <= f (vadd ROps x (vscale ROps s a))) ->
+  forall x0 st tr conv,
+  optimize ROps f df L B x0 = Some (st, tr, conv) ->
+  descent_trace tr /\ f (st_x st) <= f x0.
+Proof. exact lbfgs_monotone_convex. Qed.
+
+Example C09_lbfgs_monotone_convex_sat :
+  (forall x : list R, length ((fun v => v) x) = length x) /\
+  (forall x s a, length s = length x -> ex_sq x + a * vdot ROps ((fun v => v) x) s <= ex_sq (vadd ROps x (vscale ROps s a))) /\
+  0 <= bt_c1 ex_bt < 1 /\ 0 < bt_plo ex_bt.
+Proof. split; [reflexivity|]. split; [exact ex_sq_tangent|]. cbn. lra. Qed.
 
 (* The first L-BFGS direction is steepest descent, a strict descent direction unless the gradient is zero. *)
 Theorem C09_two_loop_first_step_is_steepest_descent :
